@@ -137,7 +137,7 @@ ObjVerdict(e, heap, Want) ==
              [] e.op = "cmp"      -> IF w18 THEN CmpVerdict(e) ELSE {}
              [] e.op = "ordinal"  -> IF w18 THEN OrdinalVerdict(e) ELSE {}
              [] e.op = "sorted"   -> IF w18 THEN SortedVerdict(e) ELSE {}
-             [] e.op \in {"hash", "api"} -> {}
+             [] e.op \in {"hash", "api", "assign"} -> {}
              [] OTHER             -> {"bind.unknown_op:" \o e.op}
   IN  [fails |-> f, cls |-> {"op=" \o e.op} \cup (IF e.out.kind = "ok" THEN {"ok"} ELSE {"raise:" \o e.out.exc}), X |-> <<>>]
 
@@ -145,7 +145,7 @@ ObjTouched(e) ==
   CASE e.op \in {"rating", "create"} -> IF e.out.kind = "ok" THEN {e.out.value} ELSE {}
     [] e.op = "deepcopy" -> {e.arg_after} \cup (IF e.out.kind = "ok" THEN {e.out.value} ELSE {})
     [] e.op = "cmp"      -> {e.a_after, e.b_after}
-    [] e.op = "ordinal"  -> {e.a_after}
+    [] e.op \in {"ordinal", "assign"} -> {e.a_after}     \* assign: the caller sets mu / sigma of a rating object
     [] OTHER             -> {}
 
 ---------------------------------------------------------------------------
@@ -210,7 +210,7 @@ Relation(g, e, X) ==
     \* same weak order of the teams, however it is written => identical outputs   [C03]
     [] role = "order" ->
          IF ~(IsRateEv(b) /\ IsRateEv(e) /\ Erase(b.teams) = Erase(e.teams) /\ b.tau = e.tau /\ b.limit = e.limit
-              /\ ModelParams(b.model) = ModelParams(e.model)
+              /\ ModelParams(b.model0) = ModelParams(e.model0)
               /\ WFRateCall(b.model.kind, Call(b)) /\ WFRateCall(e.model.kind, Call(e))
               /\ SameOrder(OutcomeVals(Call(b)), OutcomeVals(Call(e))))
            THEN {"bind.group_order_not_equivalent"}
@@ -219,7 +219,7 @@ Relation(g, e, X) ==
     \* same effective options => identical outputs                                [C15]
     [] role = "effopts" ->
          IF ~(IsRateEv(b) /\ IsRateEv(e) /\ Erase(b.teams) = Erase(e.teams) /\ b.ranks = e.ranks /\ b.scores = e.scores
-              /\ [ModelParams(b.model) EXCEPT !.tau = "", !.limit = ""] = [ModelParams(e.model) EXCEPT !.tau = "", !.limit = ""]
+              /\ [ModelParams(b.model0) EXCEPT !.tau = "", !.limit = ""] = [ModelParams(e.model0) EXCEPT !.tau = "", !.limit = ""]
               /\ WFRateCall(b.model.kind, Call(b)) /\ Computable(b.model, Call(b)) /\ Computable(e.model, Call(e))
               /\ REq(EffTau(b.model, Call(b)), EffTau(e.model, Call(e)))
               /\ EffLimit(b.model, Call(b)) = EffLimit(e.model, Call(e)))
@@ -228,7 +228,7 @@ Relation(g, e, X) ==
 
     \* the same game presented in another order                                   [C04, C09, C10]
     [] role = "perm" ->
-         IF ~(b.op = e.op /\ ModelParams(b.model) = ModelParams(e.model) /\ PermutedTeamsMatch(b, e)
+         IF ~(b.op = e.op /\ ModelParams(b.model0) = ModelParams(e.model0) /\ PermutedTeamsMatch(b, e)
               /\ (IsRateEv(b) => /\ b.tau = e.tau /\ b.limit = e.limit
                                  /\ WFRateCall(b.model.kind, Call(b)) /\ WFRateCall(e.model.kind, Call(e))
                                  /\ LET vb == OutcomeVals(Call(b))  ve == OutcomeVals(Call(e))  tp == TP(e)
@@ -258,7 +258,7 @@ Relation(g, e, X) ==
     \* one member's mu raised                                                     [C09]
     [] role = "inc" ->
          LET i == RToInt(e.aux.items[1].v)  j == RToInt(e.aux.items[2].v)
-         IN  IF ~(b.op = "win" /\ e.op = "win" /\ ModelParams(b.model) = ModelParams(e.model) /\ SigmasEqual(b, e)
+         IN  IF ~(b.op = "win" /\ e.op = "win" /\ ModelParams(b.model0) = ModelParams(e.model0) /\ SigmasEqual(b, e)
                   /\ \A s \in AllSlots(b) : IF s = <<i, j>> THEN RLeq(Pre(b, i, j).mu, Pre(e, i, j).mu)
                                             ELSE Pre(e, s[1], s[2]).mu = Pre(b, s[1], s[2]).mu)
                THEN {"bind.group_inc_mismatch"}
@@ -269,7 +269,7 @@ Relation(g, e, X) ==
 
     \* two teams, wider gap between the totals                                    [C10]
     [] role = "gap" ->
-         IF ~(b.op = "draw" /\ e.op = "draw" /\ N(b) = 2 /\ ModelParams(b.model) = ModelParams(e.model) /\ SigmasEqual(b, e)
+         IF ~(b.op = "draw" /\ e.op = "draw" /\ N(b) = 2 /\ ModelParams(b.model0) = ModelParams(e.model0) /\ SigmasEqual(b, e)
               /\ RLeq(RAbs(TeamMuTotal(b, 1) -- TeamMuTotal(b, 2)), RAbs(TeamMuTotal(e, 1) -- TeamMuTotal(e, 2))))
            THEN {"bind.group_gap_mismatch"}
          ELSE IF ~okBoth THEN {}
@@ -277,7 +277,7 @@ Relation(g, e, X) ==
 
     \* all totals equalised, sigmas unchanged                                     [C10]
     [] role = "equalised" ->
-         IF ~(b.op = "draw" /\ e.op = "draw" /\ ModelParams(b.model) = ModelParams(e.model) /\ SigmasEqual(b, e)
+         IF ~(b.op = "draw" /\ e.op = "draw" /\ ModelParams(b.model0) = ModelParams(e.model0) /\ SigmasEqual(b, e)
               /\ \A i \in TeamIdx(e) : RWithin(TeamMuTotal(e, i), TeamMuTotal(e, 1), "1E-9" ** ("1" ++ RAbs(TeamMuTotal(e, 1)))))
            THEN {"bind.group_equalised_mismatch"}
          ELSE IF ~okBoth THEN {}
@@ -285,7 +285,7 @@ Relation(g, e, X) ==
 
     \* predict_rank + predict_draw = 1 for three or more teams                    [C11]
     [] role = "rank_draw" ->
-         IF ~(b.op = "rank" /\ e.op = "draw" /\ ModelParams(b.model) = ModelParams(e.model) /\ Erase(b.teams) = Erase(e.teams))
+         IF ~(b.op = "rank" /\ e.op = "draw" /\ ModelParams(b.model0) = ModelParams(e.model0) /\ Erase(b.teams) = Erase(e.teams))
            THEN {"bind.group_rank_draw_mismatch"}
          ELSE IF ~okBoth \/ N(e) < 3 \/ ~IsRankList(b.out.value, N(b)) THEN {}
          ELSE IF RWithin(RSumSeq(RankProbVec(b)) ++ e.out.value.v, "1", ProbTol) THEN {} ELSE {GP(e, "rank_plus_draw_not_one")}
@@ -294,7 +294,7 @@ Relation(g, e, X) ==
     [] role = "scaled" ->
          LET k == e.aux.items[1].v
              near(a, c) == RWithin(a, k ** c, "4" ** RUlp(a))
-             mb == b.model  me == e.model
+             mb == b.model0  me == e.model0
          IN  IF ~(b.op = e.op /\ me.kind = mb.kind /\ me.kappa = mb.kappa /\ me.gamma = mb.gamma /\ me.limit = mb.limit
                   /\ mb.gamma \in {"default", "one", "zero", "big"}
                   /\ near(me.beta, mb.beta) /\ near(me.tau, mb.tau) /\ near(me.mu, mb.mu) /\ near(me.sigma, mb.sigma)
@@ -323,7 +323,7 @@ Relation(g, e, X) ==
     [] role = "shifted" ->
          LET d == e.aux.items[1].v
              near(a, c) == RWithin(a, c ++ d, "4" ** (RUlp(a) ++ RUlp(c)))
-         IN  IF ~(b.op = e.op /\ [ModelParams(b.model) EXCEPT !.mu = ""] = [ModelParams(e.model) EXCEPT !.mu = ""]
+         IN  IF ~(b.op = e.op /\ [ModelParams(b.model0) EXCEPT !.mu = ""] = [ModelParams(e.model0) EXCEPT !.mu = ""]
                   /\ b.model.gamma \in {"default", "one", "zero", "big"}
                   /\ SigmasEqual(b, e) /\ \A i \in TeamIdx(b) : Len(b.teams.items[i].items) = Len(b.teams.items[1].items)
                   /\ \A s \in AllSlots(b) : near(Pre(e, s[1], s[2]).mu, Pre(b, s[1], s[2]).mu)
@@ -347,7 +347,7 @@ Relation(g, e, X) ==
 
     \* the same call on another of the five model classes                         [C19]
     [] role = "model" ->
-         IF ~(b.op = e.op /\ ModelNoKind(b.model) = ModelNoKind(e.model)
+         IF ~(b.op = e.op /\ ModelNoKind(b.model0) = ModelNoKind(e.model0)
               /\ EraseOwn(b.teams, b.model.kind) = EraseOwn(e.teams, e.model.kind)
               /\ (IsRateEv(b) => b.ranks = e.ranks /\ b.scores = e.scores /\ b.tau = e.tau /\ b.limit = e.limit))
            THEN {"bind.group_model_mismatch"}
@@ -360,7 +360,7 @@ Relation(g, e, X) ==
 
     \* two-team game under the three outcomes: roles base = team 1 wins, "draw", "loss"   [C05]
     [] role \in {"draw", "loss"} ->
-         IF ~(IsRateEv(b) /\ IsRateEv(e) /\ N(b) = 2 /\ ModelParams(b.model) = ModelParams(e.model)
+         IF ~(IsRateEv(b) /\ IsRateEv(e) /\ N(b) = 2 /\ ModelParams(b.model0) = ModelParams(e.model0)
               /\ Erase(b.teams) = Erase(e.teams) /\ b.tau = e.tau /\ b.limit = e.limit
               /\ WFRateCall(b.model.kind, Call(b)) /\ WFRateCall(e.model.kind, Call(e))
               /\ LET vb == OutcomeVals(Call(b))  ve == OutcomeVals(Call(e))
@@ -395,7 +395,7 @@ Relation(g, e, X) ==
     \* no ties: team i exchanges places with a better-placed team j (aux = [i, j])   [C05]
     [] role = "swap" ->
          LET i == RToInt(e.aux.items[1].v)  j == RToInt(e.aux.items[2].v)
-         IN  IF ~(IsRateEv(b) /\ IsRateEv(e) /\ ModelParams(b.model) = ModelParams(e.model)
+         IN  IF ~(IsRateEv(b) /\ IsRateEv(e) /\ ModelParams(b.model0) = ModelParams(e.model0)
                   /\ Erase(b.teams) = Erase(e.teams) /\ b.tau = e.tau /\ b.limit = e.limit
                   /\ WFRateCall(b.model.kind, Call(b)) /\ WFRateCall(e.model.kind, Call(e))
                   /\ LET vb == OutcomeVals(Call(b))  ve == OutcomeVals(Call(e))
